@@ -545,10 +545,7 @@ def check_secfld(ctx, cases, tag):
             ctx.sample({'m': m, 't': t, 'order': o, 'modulus': repr(mod_arg(md)), 'char': c, 'ext_deg': e, 'min_order': n,
                         'result': res})
     nets.close()
-    model = common.LeanDriver('Config').run(reqs, timeout=1500)
-    if not isinstance(model, common.DriverFailure):
-        model = [ln.split(' order=')[0] for ln in model]
-    ctx.compare(f'SecFld resolution + lifting ({tag})', impl, model, reqs)
+    BATCH.append((f'SecFld resolution + lifting ({tag})', reqs, impl, lambda ln: ln.split(' order=')[0]))
 
 
 def check_number_theory(ctx):
@@ -585,8 +582,7 @@ def check_number_theory(ctx):
             if p ** d <= 1 << 12:
                 reqs.append(f'findirr {p} {d}')
                 impl.append(','.join(map(str, digits(p, int(finfields.find_irreducible(p, d))))))
-    model = common.LeanDriver('Config').run(reqs, timeout=900)
-    ctx.compare('number theory / irreducibility definitions vs repo helpers', impl, model, reqs)
+    BATCH.append(('number theory / irreducibility definitions vs repo helpers', reqs, impl, None))
 
 
 def check_float_log(ctx):
@@ -688,8 +684,7 @@ def check_threshold(ctx):
         simnet._install_proxy()
         asyncio.set_event_loop(None)
         loop.close()
-    model = common.LeanDriver('Config').run(reqs, timeout=600)
-    ctx.compare('setup() threshold', impl, model, reqs)
+    BATCH.append(('setup() threshold', reqs, impl, None))
 
 
 def check_pfield(ctx, rng):
@@ -766,8 +761,7 @@ def check_pfield(ctx, rng):
                         ctx.count('secflt_AssertionError')
                     ctx.case(('secflt', m, t, k, s_, e_))
     nets.close()
-    model = common.LeanDriver('Config').run(reqs, timeout=600)
-    ctx.compare('_pfield (SecInt/SecFxp)', impl, model, reqs)
+    BATCH.append(('_pfield (SecInt/SecFxp)', reqs, impl, None))
 
 
 def check_lifted_runs(ctx):
@@ -806,14 +800,37 @@ def check_lifted_runs(ctx):
     clear_caches()
 
 
+BATCH = []   # (what, requests, implementation lines, postprocess of model lines)
+
+
+def flush_batch(ctx):
+    """One Lean driver invocation for everything collected so far."""
+    parts = list(BATCH)
+    del BATCH[:]
+    allreq = [r for _, reqs, _, _ in parts for r in reqs]
+    model = common.LeanDriver('Config').run(allreq, timeout=1500)
+    if isinstance(model, common.DriverFailure):
+        ctx.compare('C39 driver batch', [], model, allreq)
+        return
+    pos = 0
+    for what, reqs, impl, post in parts:
+        ml = model[pos:pos + len(reqs)]
+        pos += len(reqs)
+        if post is not None:
+            ml = [post(x) for x in ml]
+        ctx.compare(what, impl, ml, reqs)
+
+
 def run(ctx):
     rng = ctx.subrng('run')
+    del BATCH[:]
     check_number_theory(ctx)
     check_float_log(ctx)
     check_threshold(ctx)
     check_pfield(ctx, rng)
     check_lifted_runs(ctx)
     check_secfld(ctx, secfld_cases(ctx, rng), 'run')
+    flush_batch(ctx)
 
 
 def search(ctx):
@@ -822,6 +839,7 @@ def search(ctx):
     ctx.tier = 'thorough'
     try:
         check_secfld(ctx, secfld_cases(ctx, rng)[:60000], 'search')
+        flush_batch(ctx)
     finally:
         ctx.tier = old
 
